@@ -43,7 +43,7 @@ theorem keyLook_go {text : Str} (h : GoodHead text) : keyLook text = .go := by
   obtain ⟨c, X, rfl, h1, h2, h3⟩ := h
   simp [keyLook, h1, h2, h3]
 
-theorem parseKey_single {text s : Str} {k : Quoting} (hps : parseString true text = .seg k s [])
+theorem parseKey_single {text s : Str} {k : Quoting} (hps : parseString true false text = .seg k s [])
     (hat : k = .unq → s.head? ≠ some '@') (hgood : GoodHead text) (hlen : utf8LenStr s ≤ maxKeyLen) :
     parseKey text = .ok [⟨k, s⟩] [] := by
   unfold parseKey parseKeyLoop
@@ -78,7 +78,7 @@ theorem rawString_value_unq {s : Str} (h : rawString s false = .unq) : rawValueG
 theorem key_core {s : Str} (hlen : utf8LenStr s ≤ maxKeyLen)
     (hnull : equalFold s "null" = true → s = "null".toList ∨ uqFoldLiteral = none)
     (hkw : rawString s true = .unq → kwCase s = false) : KeyRT s := by
-  obtain ⟨k, hps, hat, hgood⟩ := parseString_fmtKey (rest := []) (Or.inl rfl) hnull hkw
+  obtain ⟨k, hps, hat, hgood⟩ := parseString_fmtKey (e := false) (rest := []) (Or.inl rfl) hnull hkw
   rw [List.append_nil] at hps
   exact ⟨k, parseKey_single hps hat hgood hlen⟩
 
